@@ -73,6 +73,26 @@ def marginalAt [Add F] [Sub F] [Mul F] [Div F] [NatCast F] (p : Plan) (rows : Li
   let z := ((prep rows).zip (cumInc p rows)).filter fun q => q.1.t == t
   sumBy (fun q => q.2) z / ((z.length : Nat) : F)
 
+/-! ### pandas group operations on position-aligned columns (used by the definitions regenerated from the text of
+    `SurvivalGFormula.fit`, Gen/SurvGF.lean; `keys` and `vals` are two columns of the same frame) -/
+
+/-- `frame.groupby(key)[col].cumprod()`: running product within each group, in row order -/
+def groupCumprod [Mul F] [NatCast F] (keys : List Nat) (vals : List F) : List F :=
+  cumprodBy (fun _ => one) (keys.zip vals)
+
+/-- `frame.groupby(key)[col].sum()` at the group `k` -/
+def groupSumAt [Add F] [NatCast F] (keys : List Nat) (vals : List F) (k : Nat) : F :=
+  sumBy (fun q => q.2) ((keys.zip vals).filter fun q => q.1 == k)
+
+/-- `frame.groupby(key)[col].mean()` at the group `k` -/
+def groupMeanAt [Add F] [Div F] [NatCast F] (keys : List Nat) (vals : List F) (k : Nat) : F :=
+  let z := (keys.zip vals).filter fun q => q.1 == k
+  sumBy (fun q => q.2) z / ((z.length : Nat) : F)
+
+/-- the `treatment` argument of `fit` for a plan (`custom`: any other string, evaluated by `eval`) -/
+def Plan.str : Plan → String
+  | .all => "all" | .none => "none" | .natural => "natural" | .custom => "custom"
+
 /-- insertion into a strictly ascending list -/
 def insertAsc (x : Nat) : List Nat → List Nat
   | [] => [x]
